@@ -127,7 +127,7 @@ def _perm_events(args):
                 pos = e + rnd.randrange(3, 10)
             tag = "LT_%03d" % (g + 1)
             feats.append(("gene", [(blocks[0][0], blocks[-1][1])], strand, {"locus_tag": [tag], "gene": ["g%d" % g]}))
-            kind = rnd.choice(["cds", "mrna+cds", "trna", "mrna+2cds", "mrna+2cds"])
+            kind = rnd.choice(["cds", "mrna+cds", "trna", "mrna+2cds", "mrna+2cds", "mrna+2cds-same"])
             if kind == "trna":
                 feats.append(("tRNA", blocks, strand, {"locus_tag": [tag], "product": ["tRNA-X"]}))
             else:
@@ -137,6 +137,10 @@ def _perm_events(args):
                 feats.append(("CDS", blocks, strand, {"locus_tag": [tag], "codon_start": ["1"],
                                                       "protein_id": ["P%d" % g], "product": ["prod %d" % g],
                                                       "note": ["cds note %d" % g]}))
+                if kind == "mrna+2cds-same":
+                    # two proteins annotated on the very same coding region: two records that differ in what they say
+                    feats.append(("CDS", blocks, strand, {"locus_tag": [tag], "codon_start": ["1"], "protein_id": ["P%dc" % g],
+                                                          "product": ["prod %d c" % g], "note": ["cds note %d" % g]}))
                 if kind == "mrna+2cds":
                     # two coding regions annotated on one transcript record (alternative starts): each CDS record says
                     # its own things about itself
@@ -146,9 +150,17 @@ def _perm_events(args):
                                                       "db_xref": ["DB:c%d" % g]}))
             pos += 20
         seqlen = pos + 50
-        perms = list(itertools.permutations(range(len(feats))))
-        if len(perms) > maxperm:
-            perms = [perms[0]] + rnd.sample(perms[1:], maxperm - 1)
+        if len(feats) <= 7:
+            perms = list(itertools.permutations(range(len(feats))))
+            if len(perms) > maxperm:
+                perms = [perms[0]] + rnd.sample(perms[1:], maxperm - 1)
+        else:  # too many to enumerate: distinct random shuffles, the file order first
+            seen = {tuple(range(len(feats)))}
+            while len(seen) < maxperm:
+                q = list(range(len(feats)))
+                rnd.shuffle(q)
+                seen.add(tuple(q))
+            perms = sorted(seen, key=lambda t: (t != tuple(range(len(feats))), t))
         projs = []
         for p in perms:
             text = _genbank_text([feats[i] for i in p], seqlen)
@@ -158,6 +170,45 @@ def _perm_events(args):
             except Exception as ex:
                 projs.append(["x", E.exc_name(ex)])
         ev.append(["perm", projs, len(feats)])
+    return ev
+
+
+def _gffmerge_events(args):
+    """top-level non-gene features with 2..4 children that carry tool-specific attributes: the parsed feature interval's
+    qualifiers are the key-wise sorted union of all of them"""
+    seed, n = args
+    setup_repo_import()
+    import os
+    import tempfile
+
+    from inscripta.biocantor.io.gff3.parser import parse_standard_gff3
+
+    rnd = random.Random(seed)
+    KEYS = ["experiment", "evidence", "tool", "score_src"]
+    ev = []
+    for _ in range(n):
+        k = rnd.randrange(2, 5)
+        children = []
+        lines = ["##gff-version 3", "chrM\tbcverif\trepeat_region\t1\t60\t.\t+\t.\tID=top"]
+        for c in range(k):
+            q = {key: sorted(rnd.sample(range(30), rnd.randrange(1, 3))) for key in rnd.sample(KEYS, rnd.randrange(0, 4))}
+            children.append([[key, v] for key, v in q.items()])
+            attr = "ID=u%d;Parent=top" % c + "".join(";%s=%s" % (key, ",".join("v%02d" % x for x in v)) for key, v in q.items())
+            lines.append("chrM\tbcverif\trepeat_unit\t%d\t%d\t.\t+\t.\t%s" % (5 + 12 * c, 12 + 12 * c, attr))
+        order = lines[2:]
+        rnd.shuffle(order)
+        fd, path = tempfile.mkstemp(suffix=".gff3")
+        os.write(fd, ("\n".join(lines[:2] + order) + "\n").encode())
+        os.close(fd)
+        try:
+            recs = list(parse_standard_gff3(path))
+            f = recs[0].annotation.feature_collections[0].feature_intervals[0]
+            res = [[key, [int(x[1:]) for x in v]] for key, v in (f.qualifiers or {}).items() if key in KEYS]
+        except Exception as ex:
+            res = [["!" + type(ex).__name__, []]]
+        finally:
+            os.unlink(path)
+        ev.append(["gffmerge", children, res])
     return ev
 
 
@@ -306,6 +357,8 @@ def run(chk):
     parts = pmap(_gff_pick_events, [(orders[i::16], chk.seed * 29 + i) for i in range(16)])
     evs += [e for p in parts for e in p]
     chk.extra["gff3_attribute_orders"] = len(orders)
+    parts = pmap(_gffmerge_events, [(chk.seed * 37 + i, 25 if quick else 400) for i in range(16)])
+    evs += [e for p in parts for e in p]
     chk.validate("C18Trace", evs, shard=4000, label="quals", keyfn=_key)
     chk.exhaustive = not quick
     chk.nontrivial = len({str(e[1]) for e in evs})
